@@ -55,7 +55,8 @@ def signature(inst, res, f):
     tried = {e["t"] for e in res["events"] if e["a"] == "start"}       # main tries of the creation node by any worker
     untried = bool(spun) and not (spun & tried)
     if d[0] == "outcome":
-        creation = any(e["a"] == "prestart" for e in res["events"][-300:])
+        # the spinning pre-step may be slow in virtual time while another worker's bounces fill the tail of the trace
+        creation = any(e["a"] == "prestart" for e in res["events"][-300:]) or any(pre_uids.count(x) >= 3 for x in set(pre_uids))
         return "outcome=%s retries=%s creation-pre-step-spinning=%s pre-step-uid-reused=%s%s" % (d[1], retries, creation, reuse, " without-any-main-try" if untried else "")
     if d[0] == "unknown-recorded":
         return "unknown-recorded lost-result=%s" % bool(res["job"].get("lost"))
